@@ -22,9 +22,16 @@ def main():
       seed = 0
   from . import repo
   repo.setup()
-  from .driver import main as run
-  return run(a.property_id.upper(), tier=a.tier, seed=seed, replay=a.replay,
-             nworkers=a.workers, max_cases=a.max_cases)
+  try:
+    from .driver import main as run
+    return run(a.property_id.upper(), tier=a.tier, seed=seed, replay=a.replay,
+               nworkers=a.workers, max_cases=a.max_cases)
+  except Exception:
+    # a failure of the machinery itself is never a verdict about the code
+    import traceback
+    traceback.print_exc()
+    print('INCONCLUSIVE property=%s harness failure' % a.property_id.upper())
+    return 2
 
 
 if __name__ == '__main__':
